@@ -30,6 +30,6 @@ class AnnotateMinIriStrategy(AbstractMinIriStrategy):
         candidate_min_iri = backwards_str[last_sep_char.start():][::-1]
         if len(candidate_min_iri) < 3:  # Just too short. Kind of an arbitrary number
             return None
-        if candidate_min_iri.startswith("http") and len(candidate_min_iri) < 8:  # http:// or https:// + an extra char
+        if candidate_min_iri.startswith("http") and len(candidate_min_iri) < 9:  # http:// or https:// + an extra char
             return None
         return candidate_min_iri  # Let's say it is a worthy one
